@@ -11,6 +11,10 @@ import (
 
 type refEnc struct {
 	protoTime, protoArrays bool
+	// custom: "typeName|tag" keys for which the instance has a registered marker
+	// codec (C17 scripts): a plain varint of the two's complement value at the
+	// type's width, i.e. what the "flat" option means
+	custom map[string]bool
 }
 
 func refTag(idx int, wt int) []byte { return refVarint(uint64(idx)<<3 | uint64(wt)) }
@@ -77,7 +81,17 @@ func (e refEnc) body(t *TyDef, v *Val, opt string) []byte {
 			}
 			return out
 		}
+		if e.custom[t.Name+"|"+opt] {
+			c := e
+			c.custom = nil
+			return c.body(t.Elem, v, "flat")
+		}
 		return e.body(t.Elem, v, opt)
+	}
+	if e.custom[goBasicName(t.K)+"|"+opt] {
+		c := e
+		c.custom = nil
+		return c.body(t, v, "flat")
 	}
 	switch t.K {
 	case "bool":
